@@ -65,7 +65,11 @@ def strategy(tier):
     @st.composite
     def case(draw):
         src = draw(st.one_of(own, ref))
-        t = draw(trees.tree(16384, max_files=3, big=False, nonempty_total=True))
+        t = draw(trees.tree(16384, max_files=3, big=False, nonempty_total=draw(st.sampled_from([True, True, True, False]))))
+        if draw(st.sampled_from([True] + [False] * 9)):
+            t = {"name": t["name"], "single": draw(st.booleans()), "files": [{"path": [], "size": 0, "mode": "rnd", "seed": 0}]}
+            if not t["single"]:
+                t["files"][0]["path"] = ["empty.bin"]
         return {"tree": t, "source": src, "version": draw(st.sampled_from([0, 0, 1, 2, 3])),
                 "route": draw(st.sampled_from(["lib", "cli", "cli-m"]))}
     return case()
